@@ -836,6 +836,109 @@ fn placement_matrix(sh: &mut Shard) {
     }
 }
 
+/// Duplicate definitions across and inside scopes (enumerated): a declaration is inserted into an accepted program at a place
+/// where the same variable is already defined - in the same scope, or DIM SHARED by the main module - optionally next to a
+/// variable of the same base name and ANOTHER type suffix in the scope of the duplicate (a different variable, which must not
+/// hide the clash). The base program must be accepted; the edited one must be rejected with Duplicate definition at the
+/// inserted statement.
+fn duplicate_matrix(sh: &mut Shard) {
+    // (what is defined first, its duplicate)
+    const DEFS: [(&str, &str); 7] = [
+        ("DIM{S} ZT$", "DIM ZT$"),
+        ("DIM{S} ZT&", "DIM ZT&"),
+        ("DIM{S} ZT%(3)", "DIM ZT%(3)"),
+        ("DIM{S} ZT%(1 TO 2, 3)", "DIM ZT%(1 TO 2, 3)"),
+        ("DIM{S} ZT AS LONG", "DIM ZT AS LONG"),
+        ("DIM{S} ZT AS STRING * 4", "DIM ZT AS STRING * 4"),
+        ("DIM{S} ZT(2) AS DOUBLE", "DIM ZT(2) AS DOUBLE"),
+    ];
+    // a variable of the same base name and another suffix in the scope of the duplicate: (parameter, statement)
+    const OTHERS: [(&str, &str); 4] = [("", ""), ("", "ZT# = 1.5"), ("", "DIM ZT#"), ("ZT#", "")];
+    // where the first definition and the duplicate stand
+    const PLACES: [&str; 4] = ["main-main", "shared-sub", "shared-function", "sub-sub"];
+    let mut index = 0u64;
+    for (di, (first, dup)) in DEFS.iter().enumerate() {
+        for (oi, (param, other)) in OTHERS.iter().enumerate() {
+            for place in PLACES {
+                for filler in [false, true] {
+                    index += 1;
+                    if !sh.mine(index) {
+                        continue;
+                    }
+                    let extended = first.contains(" AS ");
+                    if extended && oi != 0 {
+                        continue; // next to an extended variable every other suffix is an error of its own
+                    }
+                    if !param.is_empty() && place == "main-main" {
+                        continue;
+                    }
+                    let mut lines: Vec<String> = vec![];
+                    let mut body: Vec<String> = vec![];
+                    let in_main = place == "main-main";
+                    let first_line = first.replace("{S}", if place.starts_with("shared") { " SHARED" } else { "" });
+                    if place != "sub-sub" {
+                        lines.push(first_line.clone());
+                    } else {
+                        body.push(first_line.clone());
+                    }
+                    if !other.is_empty() {
+                        body.push(other.to_string());
+                    }
+                    if filler {
+                        body.push("ZK1% = 1".to_string());
+                        body.push("PRINT \"f\"; ZK1%".to_string());
+                    }
+                    let dup_index_in_body = body.len();
+                    body.push(dup.to_string());
+                    body.push("PRINT \"g\"".to_string());
+                    let dup_row;
+                    if in_main {
+                        dup_row = lines.len() + dup_index_in_body + 1;
+                        lines.extend(body);
+                    } else {
+                        let is_fn = place == "shared-function";
+                        let arg = if param.is_empty() { "" } else { "1.5" };
+                        if is_fn {
+                            lines.push(if param.is_empty() { "PRINT ZPf%".to_string() } else { format!("PRINT ZPf%({})", arg) });
+                            lines.push(if param.is_empty() { "FUNCTION ZPf%".to_string() } else { format!("FUNCTION ZPf% ({})", param) });
+                        } else {
+                            lines.push(format!("ZPs {}", arg).trim_end().to_string());
+                            lines.push(if param.is_empty() { "SUB ZPs".to_string() } else { format!("SUB ZPs ({})", param) });
+                        }
+                        dup_row = lines.len() + dup_index_in_body + 1;
+                        lines.extend(body.into_iter().map(|l| format!("  {}", l)));
+                        lines.push(if is_fn { "END FUNCTION".to_string() } else { "END SUB".to_string() });
+                    }
+                    let edited = lines.join("\n") + "\n";
+                    let mut base_lines = lines.clone();
+                    base_lines.remove(dup_row - 1);
+                    let base = base_lines.join("\n") + "\n";
+                    sh.eval();
+                    sh.journal(&base);
+                    if impl_run::front(&base).is_err() {
+                        sh.discard("duplicate matrix: base program not accepted");
+                        continue;
+                    }
+                    let indent = if in_main { 0 } else { 2 };
+                    let site = json!({"row": dup_row, "col_start": indent + 1, "col_end": indent + dup.chars().count()});
+                    let label = format!("duplicate-definition:{}:{}", place, if oi == 0 { "plain" } else { "next-to-other-suffix" });
+                    sh.class(&format!("duplicate-matrix:{}", place));
+                    sh.class(&format!("duplicate-matrix:def{}:other{}", di, oi));
+                    sh.nontrivial(hash64(&edited));
+                    sh.journal(&edited);
+                    let inputs = json!({"kind": "edit", "program": edited, "edit": label, "family": ["DuplicateDefinition"], "site": site, "base": base});
+                    sh.sample_sparse(37, || inputs.clone());
+                    let r = check_edit(&edited, &["DuplicateDefinition"], &site, &label, inputs);
+                    if !sh.report(r) {
+                        return;
+                    }
+                }
+            }
+        }
+    }
+    sh.exhaustive("duplicate definitions: 7 declarations x 4 neighbours of another suffix x 4 scope pairs x with / without statements in between");
+}
+
 fn check_jump(text: &str, row: u32, same_scope: bool, inputs: Value) -> Result<(), Violation> {
     match impl_run::front(text) {
         Ok(_) if same_scope => Ok(()),
@@ -882,13 +985,14 @@ impl Prop for C12 {
         "C12"
     }
     fn rule(&self) -> &'static str {
-        "(a) Soundness: accepted programs of the wide generator (C08's) without READ / INPUT / LINE INPUT / PRINT USING / INPUT # / GET, two thirds with wrongly typed expressions planted inside parentheses, argument lists, subscripts, CASE lists and PRINT lists (so that acceptance itself is under test), are run: a run-time Type mismatch (13) or a wrong-kind panic is a violation. (b) Renaming: every user identifier (variables, labels, procedures, parameters, types, fields, constants) of a generated program - accepted, or rejected through an injected fault - is renamed consistently (same first letter, same suffix); verdict class, output, error code and error row must be unchanged. (b2) Declaration order: the DECLARE statements of a generated program with subprograms - agreeing with the bodies, or with one of them changed (a parameter more or fewer, a parameter of another type or style, a function of another type) - are placed at the top, after the main module's statements, and after the bodies: verdict class and behaviour must be the same at all three places. (c) One local edit of an accepted program: a numeric operand of any operator at ANY expression position (nested in parentheses, call arguments, subscripts, CASE lists, PRINT lists, block headers) replaced by a string literal; an extra argument on a user call; a plain variable of another type passed by reference; a duplicated CONST; a NEXT naming another counter. Expected: rejected, error of the matching family, located in the edited statement (printer's site map). Non-trivial = (a) >= 3 statements ran and a built-in was used, (b) program printed or was rejected, (c) edit at nesting depth >= 1 (or a statement-level edit); distinct by program text (+ edit)."
+        "(a) Soundness: accepted programs of the wide generator (C08's) without READ / INPUT / LINE INPUT / PRINT USING / INPUT # / GET, two thirds with wrongly typed expressions planted inside parentheses, argument lists, subscripts, CASE lists and PRINT lists (so that acceptance itself is under test), are run: a run-time Type mismatch (13) or a wrong-kind panic is a violation. (b) Renaming: every user identifier (variables, labels, procedures, parameters, types, fields, constants) of a generated program - accepted, or rejected through an injected fault - is renamed consistently (same first letter, same suffix); verdict class, output, error code and error row must be unchanged. (b2) Declaration order: the DECLARE statements of a generated program with subprograms - agreeing with the bodies, or with one of them changed (a parameter more or fewer, a parameter of another type or style, a function of another type) - are placed at the top, after the main module's statements, and after the bodies: verdict class and behaviour must be the same at all three places. (c) One local edit of an accepted program: a numeric operand of any operator at ANY expression position (nested in parentheses, call arguments, subscripts, CASE lists, PRINT lists, block headers) replaced by a string literal; an extra argument on a user call; a plain variable of another type passed by reference; a duplicated CONST; a NEXT naming another counter. (c2) Duplicate-definition matrix (enumerated): a second DIM of a variable (compact scalar, array, extended scalar / fixed-length string / array) inserted in the scope that already defines it, or in a SUB / FUNCTION while the main module DIM SHAREs it, with or without a variable of the same base name and another suffix (implicit, DIMmed, parameter) in that scope. Expected: rejected, error of the matching family, located in the edited statement (printer's site map). Non-trivial = (a) >= 3 statements ran and a built-in was used, (b) program printed or was rejected, (c) edit at nesting depth >= 1 (or a statement-level edit); distinct by program text (+ edit)."
     }
     fn assumptions(&self) -> Vec<&'static str> {
         vec!["error families: string operand -> {TypeMismatch, ArgumentTypeMismatch}; extra argument -> ArgumentCountMismatch; by-reference type -> {ArgumentTypeMismatch, TypeMismatch}; duplicate -> DuplicateDefinition; NEXT -> NextWithoutFor", "undefined labels are covered by C11's fault injection"]
     }
     fn run(&self, sh: &mut Shard) {
         placement_matrix(sh);
+        duplicate_matrix(sh);
         let n = sh.share(sh.tier.pick(8_000, 300_000));
         sh.search(1, n, 60, 600, |sh, tape| soundness_case(sh, tape));
         let n = sh.share(sh.tier.pick(6_000, 200_000));
